@@ -104,7 +104,7 @@ def time_cases(tier, rng):
             out.append((f'1 story {lbl} roEdStart={ed is not None}',
                         B.ro_doc([B.story('A', bodies[1], md=md)], ed_start=ed)))
     # several stories: combinations
-    n_multi = 150 if tier == 'quick' else 3000
+    n_multi = 150 if tier == 'quick' else 20000
     for k in range(n_multi):
         n = rng.randrange(2, 6)
         ids = [f'S{i}' for i in range(n)]
@@ -219,7 +219,7 @@ def evaluate(pid, tier, seed):
             continue
         entries.append((lbl, TJ.parse(text), read_view(ro), {'kind': 'access', 'ro_text': text, 'label': lbl}))
     # every state of live histories, read on the live object after each step
-    n_hist = 60 if tier == 'quick' else 600
+    n_hist = 60 if tier == 'quick' else 3000
     for h in hist_run.run_histories([seed * 3571 + 11 * k for k in range(n_hist)],
                                     max_steps=10 if tier == 'quick' else 30, views=True):
         for st in h['steps']:
